@@ -5,7 +5,8 @@ PROP = dict(
     lean_module="AbraProofs.Properties.C22",
     required_theorems=["C22_subst_update", "C22_subst_update_body", "C22_impl_ty_extract", "C22_impl_selected",
                        "C22_impl_selected_unique", "C22_dispatch", "C22_method_by_name", "C22_label_injective",
-                       "C22_label_stable", "C22_label_per_instantiation"],
+                       "C22_label_stable", "C22_label_per_instantiation", "C22_operator_method",
+                       "C22_num_operators_distinct"],
     harness_bin="c22",
     mismatch_is_violation=True,
     rule="(quick) 160 / (thorough) 3000 seeded programs: a two-method user interface implemented for a seeded subset (3-12) of "
@@ -19,7 +20,9 @@ PROP = dict(
          "task with generic + concrete captures, a field of a generic struct + concrete}; every third program adds "
          "user implementations of Equal, Ord, ToString, Clone (operators and generic functions over them, also at int/float where "
          "the prelude implementation must run), every sixth Num (+ - * / on the user type), every fourth Index and "
-         "Iterable/Iterator on a user container; each method returns or prints a tag, so the output names the code that ran; "
+         "Iterable/Iterator on a user container incl. `bag[i] op= v`; the Num programs use every operator (+ - * / ^) directly, "
+         "in generic functions and as compound assignment on a variable, a struct field and an array element, and each operator "
+         "case is also compared with the model's operator table (`monoop`); 18 fixed probes; each method returns or prints a tag, so the output names the code that ran; "
          "distinct = distinct request lines; non-trivial = the call goes through a generic function or an implementation with "
          "swapped method order",
     nontrivial=lambda req, imp: "#generic" in req or "#nested" in req or "#builtin" in req or "alt+tag" in req,
@@ -28,6 +31,13 @@ PROP = dict(
         "the rendering of monotypes inside labels and the prelude's own implementation lists are not modelled",
     ],
     assumptions=[
+        "fixed probes (harness/probes_bg8, Rust-side oracle = the behaviour of the hand-monomorphised program written next to "
+        "each probe, not the Lean model): every Num operator and compound assignment on a user type, `g[i] op= v` through a user "
+        "Index with effectful array/index/rhs (evaluation order), qualified interface-method calls at builtin types incl. "
+        "array<void>, unary minus on a user Num type (D86: diagnostic), `_` in annotations, type-qualified channel/array members, "
+        "member functions on void/bool/string/tuples, implementations for function types (D99) / channel<T> / instantiated "
+        "nominals (rejected), a constraint on a type-definition parameter, a generic instantiated at never, an interface output "
+        "type of a constrained variable (D98), a for loop over `T Iterable` (D100)",
         "implementations of one interface have pairwise different type keys (the checker rejects overlapping implementations; "
         "hypothesis of C22_impl_selected_unique)",
         "the method of the selected implementation is looked up by name (D48 repaired); until that fix and D49 (arithmetic "
